@@ -595,3 +595,166 @@ Example enforce_example :
            [ {| o_ret := RetErr; o_closed := false |}; {| o_ret := RetErr; o_closed := false |};
              {| o_ret := RetErr; o_closed := false |} ]) = SpecFail.
 Proof. vm_compute. split; reflexivity. Qed.
+
+(* ---------------- the signing executor's retry loop under the action deadline ---------------- *)
+Definition send_before (b : Z) (x : Z * bool) : Prop := snd x = true -> fst x < b.
+
+Lemma wait_until_bound cl c0 t b : t <= Z.max c0 cl -> wait_until cl t b <= Z.max c0 cl.
+Proof. unfold wait_until. lia. Qed.
+
+Lemma Forall_rev_cons {A} (P : A -> Prop) x acc : P x -> Forall P acc -> Forall P (rev (x :: acc)).
+Proof.
+  intros Hx Ha. apply Forall_rev. constructor; assumption.
+Qed.
+
+(* every result of the loop: returned (or out of fuel) with the clock no later than the first of
+   call time / closing time, every live announcement strictly before the closing time *)
+Lemma run_loop_bounded cl s c0 :
+  forall fuel script k t acc,
+    t <= Z.max c0 cl -> Forall (send_before cl) acc ->
+    let o := run_loop cl s script fuel k t acc in
+    (l_end o = -1 \/ l_end o <= Z.max c0 cl) /\ Forall (send_before cl) (l_sends o) /\
+    (l_end o <> -1 -> l_err o = true).
+Proof.
+  induction fuel as [|f IH]; intros script k t acc Ht Hacc; cbn [run_loop].
+  - cbn [l_end l_sends l_err]. repeat split; [left; reflexivity | apply Forall_rev; exact Hacc | congruence].
+  - destruct (cl <=? t) eqn:E0.
+    { cbn [l_end l_sends l_err]. repeat split; [right; exact Ht | apply Forall_rev; exact Hacc]. }
+    destruct (ann_end s k <=? t) eqn:E1; [apply IH; assumption|].
+    destruct (hd FMinority script); [|apply IH; assumption].
+    set (t1 := wait_until cl t (ann_start s k)).
+    assert (Ht1 : t1 <= Z.max c0 cl) by (apply wait_until_bound; exact Ht).
+    assert (Hacc' : Forall (send_before cl) ((t1, negb (cl <=? t1)) :: acc)).
+    { constructor; [|exact Hacc]. unfold send_before. cbn [fst snd]. intros Hl.
+      destruct (cl <=? t1) eqn:E; [discriminate|]. lia. }
+    destruct (cl <=? t1) eqn:E2.
+    { cbn [l_end l_sends l_err]. repeat split; [right; exact Ht1 | apply Forall_rev; exact Hacc']. }
+    set (t2 := wait_until cl t1 (ann_end s k)).
+    assert (Ht2 : t2 <= Z.max c0 cl) by (apply wait_until_bound; exact Ht1).
+    destruct (cl <=? t2) eqn:E3.
+    { cbn [l_end l_sends l_err]. repeat split; [right; exact Ht2 | apply Forall_rev; exact Hacc']. }
+    apply IH; assumption.
+Qed.
+
+Lemma close_time_obeys s d : close_time true s d = Z.min (s + loop_blocks) d.
+Proof. reflexivity. Qed.
+
+Lemma signing_ends_by_deadline_weak s d c0 script :
+  let o := sign_model true s d c0 script in
+  (l_end o = -1 \/ l_end o <= Z.max c0 (Z.min (s + loop_blocks) d)) /\
+  Forall (send_before d) (l_sends o) /\
+  (l_end o <> -1 -> l_err o = true).
+Proof.
+  cbv zeta. unfold sign_model. rewrite close_time_obeys.
+  destruct (run_loop_bounded (Z.min (s + loop_blocks) d) s c0 (loop_fuel script) script 0 c0 [])
+    as [H1 [H2 H3]]; [lia | constructor |].
+  repeat split; [exact H1 | | exact H3].
+  eapply Forall_impl; [|exact H2]. unfold send_before. intros x Hx Hl. specialize (Hx Hl). lia.
+Qed.
+
+(* the loop always returns: the fuel of sign_model is enough *)
+Lemma attempt_constants_nonneg :
+  0 <= signingAttemptAnnouncementDelayBlocks /\ 0 <= signingAttemptAnnouncementActiveBlocks /\
+  0 <= attempt_max_blocks /\ 0 <= signingAttemptsLimit.
+Proof. vm_compute. repeat split; congruence. Qed.
+
+Lemma run_loop_returns cl s :
+  cl <= s + loop_blocks ->
+  forall fuel script k t acc,
+    0 <= k -> 0 <= t ->
+    (length script + Z.to_nat (signingAttemptsLimit - k) + 1 <= fuel)%nat ->
+    0 <= l_end (run_loop cl s script fuel k t acc).
+Proof.
+  intros Hcl. destruct attempt_constants_nonneg as [Cd [Ca [Cm Cl]]].
+  pose proof loop_blocks_no_wrap as LB.
+  induction fuel as [|f IH]; intros script k t acc Hk Ht Hf; [lia|].
+  cbn [run_loop].
+  destruct (cl <=? t) eqn:E0; [cbn [l_end]; exact Ht|].
+  assert (Hstep : (length (tl script) + Z.to_nat (signingAttemptsLimit - (k + 1)) + 1 <= f)%nat \/
+                  (script = [] /\ signingAttemptsLimit <= k)).
+  { destruct script as [|x script'].
+    - cbn [tl length] in *. destruct (Z_lt_le_dec k signingAttemptsLimit); [left; lia|right; split; [reflexivity|lia]].
+    - left. cbn [tl length] in *. lia. }
+  assert (Hlate : signingAttemptsLimit <= k -> cl <= ann_start s k).
+  { intros Hl. unfold ann_start. rewrite LB in Hcl. nia. }
+  destruct (ann_end s k <=? t) eqn:E1.
+  { destruct Hstep as [Hs|[_ Hl]]; [apply IH; lia|].
+    specialize (Hlate Hl). unfold ann_end in E1. lia. }
+  destruct (hd FMinority script) eqn:Eh.
+  2:{ destruct Hstep as [Hs|[Hn _]]; [apply IH; lia|]. subst script. discriminate. }
+  unfold wait_until.
+  destruct (cl <=? Z.max t (Z.min (ann_start s k) cl)) eqn:E2; [cbn [l_end]; lia|].
+  destruct (cl <=? Z.max (Z.max t (Z.min (ann_start s k) cl)) (Z.min (ann_end s k) cl)) eqn:E3; [cbn [l_end]; lia|].
+  destruct Hstep as [Hs|[_ Hl]]; [apply IH; lia|].
+  specialize (Hlate Hl). lia.
+Qed.
+
+Lemma sign_model_returns par s d c0 script :
+  0 <= c0 -> 0 <= l_end (sign_model par s d c0 script).
+Proof.
+  intros Hc. unfold sign_model. apply run_loop_returns; [|lia|exact Hc|].
+  - unfold close_time. destruct par; lia.
+  - unfold loop_fuel. rewrite Z.sub_0_r. lia.
+Qed.
+
+Lemma signing_ends_by_deadline_lemma s d c0 script :
+  0 <= c0 ->
+  let o := sign_model true s d c0 script in
+  0 <= l_end o <= Z.max c0 (Z.min (s + loop_blocks) d) /\
+  Forall (send_before d) (l_sends o) /\ l_err o = true.
+Proof.
+  intros Hc. cbv zeta. pose proof (sign_model_returns true s d c0 script Hc) as H0.
+  destruct (signing_ends_by_deadline_weak s d c0 script) as [H1 [H2 H3]].
+  repeat split; [exact H0 | lia | exact H2 | apply H3; lia].
+Qed.
+
+(* soundness of the executable form *)
+Lemma loop_spec_ok_sound s d c0 o :
+  loop_spec_ok s d c0 o = true ->
+  0 <= l_end o <= Z.max c0 (Z.min (s + loop_blocks) d) /\
+  (forall b, In (b, true) (l_sends o) -> b < d) /\ l_err o = true.
+Proof.
+  unfold loop_spec_ok. intros H.
+  apply andb_prop in H. destruct H as [H He]. apply andb_prop in H. destruct H as [H Hs].
+  apply andb_prop in H. destruct H as [H0 H1].
+  repeat split; [lia | lia | | exact He].
+  intros b Hb. rewrite forallb_forall in Hs. specialize (Hs _ Hb). unfold live_before in Hs.
+  cbn [fst snd negb orb] in Hs. lia.
+Qed.
+
+(* ... and it holds of every model output *)
+Lemma sign_model_passes_spec s d c0 script :
+  0 <= c0 -> loop_spec_ok s d c0 (sign_model true s d c0 script) = true.
+Proof.
+  intros Hc.
+  destruct (signing_ends_by_deadline_lemma s d c0 script Hc) as [[H0 H1] [H2 H3]].
+  unfold loop_spec_ok. rewrite H3, andb_true_r.
+  apply andb_true_intro. split; [apply andb_true_intro; split; lia|].
+  apply forallb_forall. intros [b l] Hin. rewrite Forall_forall in H2. specialize (H2 _ Hin).
+  unfold send_before, live_before in *. cbn [fst snd] in *. destruct l; cbn [negb orb]; [|reflexivity].
+  specialize (H2 eq_refl). lia.
+Qed.
+
+Lemma sends_eqb_refl l : sends_eqb l l = true.
+Proof. induction l as [|[x p] l IH]; [reflexivity|]. cbn [sends_eqb]. rewrite Z.eqb_refl, eqb_reflx, IH. reflexivity. Qed.
+
+Lemma loop_model_passes s d c0 script :
+  well_formed (CLoop s d c0 script (sign_model true s d c0 script)) = true ->
+  judge (CLoop s d c0 script (sign_model true s d c0 script)) = Agree.
+Proof.
+  intros W. unfold judge. rewrite W. cbn [well_formed] in W. unfold is_u64 in W.
+  unfold decide, spec_ok, agree. rewrite sign_model_passes_spec by lia.
+  unfold loop_obs_eqb. rewrite sends_eqb_refl, Z.eqb_refl, eqb_reflx. reflexivity.
+Qed.
+
+(* a loop context without the caller's context as parent (seeded change C46b): a message starting
+   100 blocks before the deadline keeps announcing attempts after it and returns 105 blocks late *)
+Lemma orphan_loop_overruns :
+  let o := sign_model false 10000 10100 9998 [] in
+  l_end o = 10205 /\ In (10124, true) (l_sends o) /\ loop_spec_ok 10000 10100 9998 o = false.
+Proof. vm_compute. repeat split; try reflexivity. right; right; right; left; reflexivity. Qed.
+
+Example loop_case_cut_by_deadline :
+  judge (CLoop 10000 10100 9998 [] (sign_model true 10000 10100 9998 [])) = Agree /\
+  l_end (sign_model true 10000 10100 9998 []) = 10100.
+Proof. vm_compute. split; reflexivity. Qed.
